@@ -161,30 +161,35 @@ CHECKS["C10"] = (
 )
 
 CHECKS["C01"] = (
-    "Coq proof about a kernel model regenerated from fast_likelihood.pyx by a translator (jitter folding, prior slots, per-sample state) + MathComp "
-    "matrix identities for all dimensions (Woodbury, Sylvester determinant); per-input exact bigQ certificates that the generated loops compute the "
-    "closed form; toleranced correspondence of the generated model with the binary rebuilt from the generated C",
+    "Coq proof about a kernel model regenerated from fast_likelihood.pyx by a translator: loop-nest characterisation for all sizes and states "
+    "(structured mirror checked by conversion, lens/funext reasoning), MathComp bridge and Woodbury/Sylvester identities -> the generated entry "
+    "point returns the Gaussian marginal (C01_marginal_is_gaussian); per-input exact bigQ certificates against the closed form; toleranced "
+    "correspondence of the generated model with the binary rebuilt from the generated C",
     "tools/pyx2v.py regenerates Gen/KernelPyx.v (get_ivar, make_AAinv, make_bBBinv, likelihood_worker, the three per-sample preludes, the mu/Lambda "
-    "slotting of __init__) from the .pyx on every run -- the only way a .pyx edit can be judged here, there is no Cython. Proved for all inputs about "
-    "that generated code: new_ivar = ivar/(1+s^2 ivar) on every epoch and 1/new_ivar = 1/ivar + s^2; every prior mean/variance is stored in its own "
-    "design-matrix column (K,v0,offsets,v1..), slots pairwise distinct, default-K variance left to the per-sample rule, P0 converted to days; the "
-    "marginal, posterior and test entry points hand the same state to the worker. Proved for all dimensions over any field (MathComp): the matrix the "
-    "worker forms as Binv is the inverse of B = C_s + M Lambda M^T; det B = det C_s det Lambda det(Lambda^-1 + M^T C_s^-1 M). NOT proved for all "
-    "inputs: that the generated loop nests compute exactly those matrix expressions -- certified per run and per input by Coq instead (exact rational "
-    "equality of chi^2, |det B|, B, B^-1, a, Ainv and certified-interval equality of ll with -1/2(chi^2 + ln((2 pi)^n |det B|))). The generated "
-    "model is also compared with the rebuilt binary (ll through TheJoker.marginal_ln_likelihood, a / Ainv through the public buffers).",
-    "Trusted: Coq kernel + vm_compute; Bignums bigQ; Coq-Interval via Base/RealEnc.v (ln, pi, certified doubles for (P/P0)^(-2/3)); translator "
-    "tools/pyx2v.py + tools/imp2v.py (fail-closed); tools/patch_kernel_c.py + gcc (the generated C cannot be regenerated); LAPACK as oracles with "
-    "exact Gauss-Jordan instances checked by X X^-1 = I; twobody's Kepler solver as a table oracle for the specified convention; astropy units; IEEE "
-    "rounding bridged by tolerance (1e-7).",
-    "DESIGN.md 3 (C01)",
+    "slotting of __init__, and the state-algebra lemmas) from the .pyx on every run -- the only way a .pyx edit can be judged here, there is no "
+    "Cython. Proved about that generated code, for every number of epochs / linear parameters, every operations record or MathComp field and every "
+    "initial state: jitter folding (1/new_ivar = 1/ivar + s^2 on every epoch); prior means/variances land in their own design-matrix columns, "
+    "P0 in days; the prelude leaves the Kepler-oracle K column, the jittered inverse variances and min(max_K^2, sigma_K0^2/(1-e^2) (P/P0)^(-2/3)) "
+    "in slot 0; every loop nest of make_AAinv / make_bBBinv / likelihood_worker computes its closed form (sums in loop order; structured mirror = "
+    "generated term by conversion); read in a MathComp field these are Ainv = Lambda^-1 + M^T W M, B = W^-1 + M Lambda M^T, Binv = W - W M Y "
+    "M^T W, chi^2 = r^T Binv r, so by Woodbury the returned value is -1/2 (r^T B^-1 r + sum ln(2 pi |U_ii|)) with B^-1 a two-sided inverse "
+    "(C01_marginal_is_gaussian), given that the inversion oracle returns a right inverse. Assumed: the LU oracle's diagonal gives ln|det B| "
+    "(LAPACK contract), oracles succeed, IEEE rounding. Per run Coq additionally certifies every generated input end to end (exact rational "
+    "equality of chi^2, |det B|, B, B^-1, a, Ainv with the closed form from a junk initial state; certified-interval equality of ll) and compares "
+    "the generated model with the rebuilt binary (ll through TheJoker.marginal_ln_likelihood incl. mixed-jitter batches, a / Ainv buffers).",
+    "Trusted: Coq kernel + vm_compute; functional_extensionality (stdlib axiom, arrays are functions); Bignums bigQ; Coq-Interval via Base/RealEnc.v; "
+    "translator tools/pyx2v.py + tools/imp2v.py (fail-closed); tools/patch_kernel_c.py + gcc (the generated C cannot be regenerated); LAPACK as "
+    "oracles (contracts as hypotheses; exact Gauss-Jordan instances checked by X X^-1 = I); twobody's Kepler solver as a table oracle for the "
+    "specified convention; astropy units; IEEE rounding bridged by tolerance (1e-7).",
+    "DESIGN.md 3 (C01), 8.1",
 )
 
 CHECKS["C03"] = (
     "Coq proof: generated posterior path prepares the same state as the marginal path (cap included); MathComp completing-the-square theorem for all "
     "dimensions; list proofs of the row layout; per-input exact certificates for (a, A^-1); recorded multivariate_normal arguments compared by Coq",
     "Proved for all inputs: (generated code) k_posterior_one and k_marginal_one call the worker on the same per-sample state -- same jittered inverse "
-    "variances, prior slots and capped K variance; (MathComp, any field, all n, k) (y-Mx)^T C_s^-1 (y-Mx) + (x-mu)^T Lambda^-1 (x-mu) = (x-a)^T A^-1 "
+    "variances, prior slots and capped K variance; the generated posterior path (all sizes, any state) leaves Ainv = Lambda^-1 + M^T C_s^-1 M and, "
+    "given the solver's contract, a with Ainv a = M^T C_s^-1 y + Lambda^-1 mu, and returns the marginal path's value (C03_posterior_is_conditional); (MathComp, any field, all n, k) (y-Mx)^T C_s^-1 (y-Mx) + (x-mu)^T Lambda^-1 (x-mu) = (x-a)^T A^-1 "
     "(x-a) + (M mu-y)^T B^-1 (M mu-y) with A^-1 = Lambda^-1 + M^T C_s^-1 M and A^-1 a = Lambda^-1 mu + M^T C_s^-1 y, i.e. N(a, A) is the exact "
     "conditional; (lists) output row n*n_linear_samples+j = sample n's nonlinear parameters ++ its j-th draw. Per run: Coq certifies on every "
     "generated input that the generated loops produce exactly that (a, A^-1), that the (mean, cov) the implementation hands to "
@@ -241,8 +246,9 @@ CHECKS["C05"] = (
     "unrelated marginal/posterior calls on the same sampler, on the helper after posterior/test calls, through a dill-pickled helper, row by row and "
     "reversed: all bit-identical and in input order; Coq certifies each batched result against the batching model; rows are tied to the generated "
     "kernel model, which is run from a state whose every scratch cell holds junk (a cell read before it is written, i.e. dependence on earlier "
-    "calls, shows as a disagreement with the closed form); accepted sets equal for equal seeds across paths. Partial: history independence of the "
-    "generated loops is certified per input (junk state), not proved for all inputs; process scheduling is exercised, not modelled.",
+    "calls, shows as a disagreement with the closed form); accepted sets equal for equal seeds across paths. C05_history_independent: the "
+    "generated worker's value depends only on the configuration arrays, whatever the scratch buffers hold, for oracles that read only their block "
+    "(proved of the executable oracles). Partial: process scheduling is exercised, not modelled.",
     "Trusted: Coq kernel + vm_compute; translators py2v_batch / pyx2v (fail-closed); schwimmbad pool.map order; dill for pickling the helper (stdlib "
     "pickle cannot serialise pymc objects here, the test-suite uses dill too).",
     "DESIGN.md 3 (C05)",
